@@ -141,6 +141,29 @@ T.update({
  'C20_f': dict(change='ConstantTimeCmp consumes 32-bit words', needs='l not a multiple of 4', strengthened='no'),
 })
 
+T.update({
+ 'C01_g': dict(change='SignHashed: r == 0 retry test moved before the reduction mod n', needs='x1 + e = n: r = 0 emitted, own signature rejected', strengthened='no'),
+ 'C02_g': dict(change='SignHashed: k != 0 test by four Uint64 loads, K[16:] loaded twice and K[24:] never', needs='nonce below 2^64 treated as zero and skipped', strengthened='no'),
+ 'C03_g': dict(change='VerifyHashed: IsInfinity rejection removed', needs='(r, s) with [s]G+[t]P at infinity and r = e mod n', strengthened='no'),
+ 'C04_g': dict(change='sm3 Write: buffered-tail branch requires nx < BlockSize', needs='message length 63 mod 64', strengthened='no'),
+ 'C05_g': dict(change='portable cryptoBlockX2 loads the third word of the high lane from block 0', needs='two different blocks on the portable X2 path', strengthened='no'),
+ 'C06_g': dict(change='CalculateSPre 4-way aad loop exits on JGE (remainder of exactly 3 blocks takes another 4-block step)', needs='aad >= 128 bytes with block count 3 mod 4', strengthened='YES: aad and nonce lengths did not cover every residue of the block count mod 4 above the 4-way threshold; 144, 160, 176, 183, 240 added (amd64 and arm64 parts)'),
+ 'C07_g': dict(change='constantTimeCompare 8-byte loop overwrites instead of accumulating', needs='16-byte tag, forgery confined to tag bytes 0..7', strengthened='no'),
+ 'C08_g': dict(change='TestPrivateKey zero scan breaks at the first non-zero byte', needs='key with leading zero bytes', strengthened='no'),
+ 'C09_g': dict(change='GHASH reduce macro skips the second fold when the first product is zero', needs='top 64 bits of the carry-less product zero', strengthened='no'),
+ 'C10_g': dict(change='ensureCapacity copies the prefix with copy(head[:asked], array)', needs='reallocation with len(dst) > output size', strengthened='no'),
+ 'C11_g': dict(change='sm4CipherAsm.Decrypt checks checkBlock(src, src)', needs='dst of 1..15 bytes', strengthened='no'),
+ 'C12_g': dict(change='GenerateKey reads with rand.Read', needs='reader with short reads', strengthened='YES: chunked-reader key generation added to the C12 validation replay (short reads were C19 territory)'),
+ 'C13_g': dict(change='VerifyZa hashes sm3.SumSM3(append(za, msg...))', needs='za with live data in its spare capacity (e.g. za||pubx||puby in one buffer)', strengthened='YES: the wrappers replay now always runs and includes adjacent-slice argument layouts'),
+ 'C14_g': dict(change='ScalarMult keeps only the last 32 bytes of a longer scalar', needs='scalar longer than 32 bytes with non-zero leading bytes', strengthened='no'),
+ 'C15_g': dict(change='SM2Point.SetBytes accepts the hybrid prefixes 06/07', needs='65-byte encoding with prefix 06 or 07', strengthened='YES: symbolic run flagged it; hybrid, compressed and over-long encodings added to the replay'),
+ 'C16_g': dict(change='sm2Opp add-back mask from the borrow of the lowest limb', needs='non-zero element with Montgomery limb 0 equal to 0', strengthened='no'),
+ 'C17_g': dict(change='SignHashed caches 1/(1+d) in unsynchronised package-level variables', needs='concurrent signing with two keys', strengthened='no'),
+ 'C18_g': dict(change='arm64 gHashBlocks: reduction constant immediate 0x87 -> 0xC2', needs='arm64 only', strengthened='YES: C18 read DATA blocks only; the arm64 gHashBlocks is now interpreted from the listing and compared with the specification GHASH'),
+ 'C19_g': dict(change='SignHashed redraws a rejected nonce in place without checking the read error', needs='rejected candidate followed by a failing draw', strengthened='no'),
+ 'C20_g': dict(change='ConstantTimeCmp loop starts at len(a)-1 instead of l-1', needs='l < len(a)', strengthened='no'),
+})
+
 for name, t in sorted(T.items()):
     d = os.path.join(S, name)
     if not os.path.isdir(d):
@@ -150,7 +173,7 @@ for name, t in sorted(T.items()):
     detected = any(l.startswith('VIOLATION') for l in res)
     key = next((l.strip() for l in res if l.strip().startswith('key=')), '')
     meta = dict(
-        seed=name, property=prop, origin='fresh sub-agent given only the property text and a scratch worktree of /repo' + (' (asked for a change in the arm64 implementation; demonstration by a Go port of the changed logic, since arm64 code cannot run on this host)' if name.endswith('_d') else '') + (' (fifth round: one sub-agent handled four properties in turn, each in its own worktree)' if name.endswith('_f') else ''),
+        seed=name, property=prop, origin='fresh sub-agent given only the property text and a scratch worktree of /repo' + (' (asked for a change in the arm64 implementation; demonstration by a Go port of the changed logic, since arm64 code cannot run on this host)' if name.endswith('_d') else '') + (' (fifth round: one sub-agent handled four properties in turn, each in its own worktree)' if name.endswith(('_f', '_g')) else ''),
         change=t['change'], needs_to_manifest=t['needs'],
         compiles=True, existing_suite_passes=True,
         confirmed_by_me='applied patch.diff in a scratch worktree: go build ./... and go test -vet=off -count=1 ./... pass; demo_test.go fails with the change and passes without it (C08/C09/C11: structural demonstration, see meta.txt)',
